@@ -160,6 +160,13 @@ func Minimize(t *testing.T, sc *Scenario, trace []Decision, v Violation, maxRuns
 				}
 			}
 		}
+		for hi := len(m.best.TaskHolds) - 1; hi >= 0; hi-- {
+			c := cloneScenario(m.best)
+			c.TaskHolds = append(c.TaskHolds[:hi:hi], c.TaskHolds[hi+1:]...)
+			if m.try(c, 1) {
+				progress = true
+			}
+		}
 		for ai := range m.best.Actors {
 			for oi := range m.best.Actors[ai].Ops {
 				o := m.best.Actors[ai].Ops[oi]
